@@ -349,8 +349,10 @@ func sameMap(a, b map[string]string) bool {
 	return true
 }
 
-func decoyContent(c string) string { return strings.ReplaceAll(c, "DATA-", "BYPASS-") + "BYPASS-tail\n" }
-func sameContent(c string) string  { return c }
+func decoyContent(c string) string {
+	return strings.ReplaceAll(c, "DATA-", "BYPASS-") + "BYPASS-tail\n"
+}
+func sameContent(c string) string { return c }
 
 func flagClass(flag int) string {
 	switch flag {
@@ -874,7 +876,7 @@ func detail(k kase, hook bool, o runObs, extra map[string]any) map[string]any {
 		"NoExec": k.NoExec, "NoFileWrites": k.NoFileWrites, "NoFileReads": k.NoFileReads, "NoArgVars": k.NoArgVars,
 		"custom_OpenFile": hook, "shell_ok": k.ShellOK, "case": string(kj),
 		"files_before": "in1 (2 lines) in2 (1 line) empty (0 bytes) d/ (directory)",
-		"got_error": o.Err, "got_stdout": o.Stdout, "got_stderr": o.Stderr, "got_opens": fmt.Sprint(o.Opens),
+		"got_error":    o.Err, "got_stdout": o.Stdout, "got_stderr": o.Stderr, "got_opens": fmt.Sprint(o.Opens),
 		"got_execs": fmt.Sprint(o.Execs), "got_new_files": newFiles(o.Files),
 	}
 	for a, b := range extra {
